@@ -37,7 +37,7 @@ ALL="C01 C02 C03 C04 C05 C06 C07 C08 C09 C10 C11 C12 C13 C14 C15 C16 C17 C18 C19
 ids="$PID $*"
 # if the owning check misses it, every other check gets a try (recorded: which checks catch which change)
 out=$(VERIF_REPO="$SCR" VERIF_EVIDENCE_DIR="$SCR/.evidence" "$ROOT/check" "$PID" quick 2>&1)
-if ! echo "$out" | grep -q '^VIOLATION'; then ids="$ALL"; fi
+if ! echo "$out" | grep -q "^VIOLATION" && [ -z "${ONLY_OWN:-}" ]; then ids="$ALL"; fi
 for id in $ids; do
   out=$(VERIF_REPO="$SCR" VERIF_EVIDENCE_DIR="$SCR/.evidence" "$ROOT/check" "$id" quick 2>&1)
   n=$(echo "$out" | grep -c '^VIOLATION')
